@@ -33,8 +33,12 @@ def generic(pid, tier, seed, mcs, scripts, vals, assumptions, extra_cov=None, pr
     mcs: [(module, cfg)], vals: [(projection, trace module, trace cfg)]"""
     mc_res = [V.mc(m, c, "%s_%d" % (pid, i)) for i, (m, c) in enumerate(mcs)]
     projs = sorted({p for (p, _, _) in vals})
+    del V.HANGS[:]
     d, shard_dirs = V.run_scripts(scripts, projs, pid, probe=probe, shards=shards)
     viol, known = [], []
+    for run in V.HANGS:
+        viol.append({"clauses": ["HangInCodeUnderTest"], "script": scripts[run] if 0 <= run < len(scripts) else None,
+                     "key": "run%d" % run, "detail": {"what": "a call into quinn did not return within the watchdog limit"}})
     lines = 0
     vstates = 0
     evhist = {}
